@@ -131,6 +131,7 @@ func checkC06(ctx *Ctx, r *Report) {
 	c06NameDecisions(ctx, r)
 	c06NullUnionBothOrders(ctx, r)
 	c06NullableGuardExact(ctx, r)
+	c06EliminatorTotal(ctx, r)
 	c06ResolveBeforeKindTest(ctx, r)
 	inProgressRestored(ctx, r, []string{"internal/ast/compiler/"}, 1)
 }
@@ -1134,6 +1135,10 @@ func c06NullableGuardExact(ctx *Ctx, r *Report) {
 					if s, ok := q.(*ast.SelectorExpr); ok {
 						switch s.Sel.Name {
 						case "Required", "Nullable", "Type":
+							// … of the field being processed, not of something looked up from it
+							if ap := accessPathOf(info, s); ap.ok && ap.root != nil && !rootIsStructField(ap.root) && bad == "" {
+								bad = exprString(s) + " (not a property of the field itself)"
+							}
 						default:
 							if bad == "" {
 								bad = exprString(s)
@@ -1169,4 +1174,60 @@ func condTestsNonNilAny(info *types.Info, cond ast.Expr) bool {
 		}
 	}
 	return false
+}
+
+func rootIsStructField(o types.Object) bool {
+	t := namedOf(o.Type())
+	return t != nil && t.Obj().Name() == "StructField"
+}
+
+// c06EliminatorTotal: DisjunctionToType establishes "no union type remains" for Go and Java: its OnDisjunction callback
+// must never hand the union it received back on a success path (`return def, nil`). Any such exit — "nothing to choose
+// from", "already fine" — leaves a union in the IR the Go and Java jennies have no case for.
+func c06EliminatorTotal(ctx *Ctx, r *Report) {
+	pkg := ctx.Pkg("internal/ast/compiler")
+	nt := ctx.LookupType("internal/ast/compiler", "DisjunctionToType")
+	typeT := ctx.LookupType("internal/ast", "Type")
+	if pkg == nil || nt == nil {
+		r.Undecided("anchor lost: DisjunctionToType")
+		return
+	}
+	info := pkg.TypesInfo
+	var fd *ast.FuncDecl
+	for _, m := range methodsOf(ctx, nt) {
+		if m.Name.Name == "processDisjunction" {
+			fd = m
+		}
+	}
+	if fd == nil {
+		r.Undecided("anchor lost: DisjunctionToType.processDisjunction")
+		return
+	}
+	// the union parameter and the variables re-bound from the visitor call on it
+	unionVars := map[types.Object]bool{}
+	for _, f := range fd.Type.Params.List {
+		for _, nm := range f.Names {
+			if namedOf(info.TypeOf(nm)) == typeT {
+				unionVars[info.Defs[nm]] = true
+			}
+		}
+	}
+	n := 0
+	bad := ""
+	var at token.Pos = fd.Pos()
+	ast.Inspect(fd.Body, func(m ast.Node) bool {
+		rs, ok := m.(*ast.ReturnStmt)
+		if !ok || len(rs.Results) != 2 {
+			return true
+		}
+		n++
+		if id, ok := ast.Unparen(rs.Results[0]).(*ast.Ident); ok && unionVars[objOf(info, id)] && isNilIdent(info, rs.Results[1]) && bad == "" {
+			bad, at = "return "+exprString(rs.Results[0])+", nil", rs.Pos()
+		}
+		return true
+	})
+	r.Count("exits of DisjunctionToType.processDisjunction", n)
+	r.Floor("exits of DisjunctionToType.processDisjunction", 3)
+	r.Check(bad == "", "normalform/eliminator-total", "DisjunctionToType.processDisjunction never returns the union", at, "every successful exit returns a scalar, a reference or an error",
+		"DisjunctionToType.processDisjunction has the exit `"+bad+"`: the union it was given stays in the IR — for Go and Java 'no union type remains' no longer holds (a single-branch anyOf / oneOf is enough)")
 }
